@@ -38,6 +38,7 @@ type Frame struct {
 	xsyms  map[string]string
 	prevSt    map[*ssa.BasicBlock]*State           // state at the loop header of the current iteration (loop step clauses)
 	prevNames map[*ssa.BasicBlock]map[string]Value
+	origin    map[ssa.Value]PtrV // where a pointer held as (Opt T) was loaded from (stores through it update that place)
 }
 
 type deferred struct {
@@ -78,6 +79,7 @@ type Exec struct {
 	nextCell int
 	nextH    int
 	lgN      int
+	gWritten map[*ssa.Global]bool
 	warnings map[string]bool
 	unverified string
 	paths    int
@@ -364,6 +366,11 @@ func (x *Exec) load(st *State, p Value, ty types.Type) Value {
 			return x.freshTV("badload", ty, st)
 		}
 		for _, pe := range q.Path {
+			if pe.Deref {
+				tv := v.(TV)
+				v = TV{T: app("val", tv.T), Ty: deref(tv.Ty)}
+				continue
+			}
 			if pe.IsIndex {
 				if l, ok := v.(ListV); ok {
 					var i int
@@ -435,9 +442,20 @@ func elemType(t types.Type) types.Type {
 	return t
 }
 
+func (x *Exec) markReadOnly(st *State, c int) {
+	if st.readOnly == nil {
+		st.readOnly = map[int]bool{}
+	}
+	st.readOnly[c] = true
+}
+
 func (x *Exec) storeTo(st *State, p Value, v Value) {
 	switch q := p.(type) {
 	case PtrV:
+		if st.readOnly[q.Cell] {
+			x.fail("store through a pointer whose target the engine only holds as a detached copy (the write would be lost)")
+			return
+		}
 		if len(q.Path) == 0 {
 			st.cells[q.Cell] = v
 			return
@@ -475,6 +493,11 @@ func (x *Exec) updPath(st *State, base Value, path []PathElem, v Value) Value {
 	pe := path[0]
 	switch b := base.(type) {
 	case TV:
+		if pe.Deref {
+			inner := TV{T: app("val", b.T), Ty: deref(b.Ty)}
+			nv := x.updPath(st, inner, path[1:], v)
+			return TV{T: app("Some", x.asTV(st, nv).T), Ty: b.Ty}
+		}
 		if pe.IsIndex {
 			el := TV{T: simpSelect(app("gseq.arr", b.T), pe.Index), Ty: elemType(b.Ty)}
 			nv := x.updPath(st, el, path[1:], v)
@@ -584,9 +607,62 @@ func (x *Exec) loadGlobal(st *State, g *ssa.Global) Value {
 	if _, ok := ty.Underlying().(*types.Signature); ok {
 		return ObjV{Path: name, Ty: ty}
 	}
-	// map / slice / other package-level data: symbolic constant (treated as immutable; writes are rejected)
+	// map / slice / other package-level data: symbolic constant if the variable is never written outside init,
+	// an arbitrary value at every load otherwise (process memory: other calls may have written it)
+	if x.globalWritten(g) {
+		return x.freshTV("mutglobal_"+g.Name(), ty, st)
+	}
 	x.enc.DeclConst(name, x.enc.Sort(ty))
 	return TV{T: name, Ty: ty}
+}
+
+// globalWritten: some repository function other than a package initialiser stores to (an element / field of) the variable.
+func (x *Exec) globalWritten(g *ssa.Global) bool {
+	if x.gWritten == nil {
+		x.gWritten = map[*ssa.Global]bool{}
+		for _, pkg := range x.L.Prog.AllPackages() {
+			if pkg.Pkg == nil || !strings.HasPrefix(pkg.Pkg.Path(), repoPrefix) {
+				continue
+			}
+			var visit func(fn *ssa.Function)
+			visit = func(fn *ssa.Function) {
+				if fn == nil || fn.Blocks == nil || fn.Name() == "init" || strings.HasPrefix(fn.Name(), "init#") {
+					return
+				}
+				for _, b := range fn.Blocks {
+					for _, in := range b.Instrs {
+						switch i := in.(type) {
+						case *ssa.Store:
+							if gg := globalRoot(i.Addr); gg != nil {
+								x.gWritten[gg] = true
+							}
+						case *ssa.MapUpdate:
+							if gg := globalRoot(i.Map); gg != nil {
+								x.gWritten[gg] = true
+							}
+						}
+					}
+				}
+				for _, af := range fn.AnonFuncs {
+					visit(af)
+				}
+			}
+			for _, m := range pkg.Members {
+				switch mm := m.(type) {
+				case *ssa.Function:
+					visit(mm)
+				case *ssa.Type:
+					for _, t := range []types.Type{mm.Type(), types.NewPointer(mm.Type())} {
+						ms := x.L.Prog.MethodSets.MethodSet(t)
+						for k := 0; k < ms.Len(); k++ {
+							visit(x.L.Prog.MethodValue(ms.At(k)))
+						}
+					}
+				}
+			}
+		}
+	}
+	return x.gWritten[g]
 }
 
 var sentinelIDs = map[string]int{}
@@ -930,6 +1006,16 @@ func (x *Exec) step(st *State, fr *Frame, in ssa.Instruction) {
 		switch ins.Op {
 		case token.MUL:
 			fr.env[ins] = x.load(st, xv, ins.Type())
+			if src, ok := xv.(PtrV); ok {
+				if tv, ok := fr.env[ins].(TV); ok && tv.Ty != nil {
+					if _, isPtr := tv.Ty.Underlying().(*types.Pointer); isPtr && strings.HasPrefix(e.Sort(tv.Ty), "(Opt") {
+						if fr.origin == nil {
+							fr.origin = map[ssa.Value]PtrV{}
+						}
+						fr.origin[ins] = src
+					}
+				}
+			}
 		case token.NOT:
 			fr.env[ins] = TV{T: not(term(xv)), Ty: ins.Type()}
 		case token.SUB:
@@ -952,14 +1038,25 @@ func (x *Exec) step(st *State, fr *Frame, in ssa.Instruction) {
 				fr.env[ins] = ObjV{Path: o.Path, Ty: types.NewPointer(o.Ty)}
 			} else {
 				c := x.newCell(st, fv, fv.(TV).Ty)
+				x.markReadOnly(st, c)
 				fr.env[ins] = PtrV{Cell: c}
 			}
 		case TV:
-			// pointer held as (Opt struct): read-only field access
+			// pointer held as (Opt struct) inside another value
 			if pt, ok := p.Ty.Underlying().(*types.Pointer); ok && strings.HasPrefix(e.Sort(p.Ty), "(Opt") {
+				if o, ok := fr.origin[ins.X]; ok {
+					// still the pointer that was loaded from there: address the field in place, so that stores reach it
+					if cur, ok := x.load(st, o, nil).(TV); ok && cur.T == p.T {
+						np := PtrV{Cell: o.Cell, Path: append(append([]PathElem(nil), o.Path...), PathElem{Deref: true}, PathElem{Field: ins.Field})}
+						fr.env[ins] = np
+						break
+					}
+				}
+				// origin unknown: a detached read-only copy (a store through it is rejected, not dropped)
 				sv := TV{T: app("val", p.T), Ty: pt.Elem()}
 				fv := x.fieldOf(st, sv, ins.Field)
 				c := x.newCell(st, fv, fv.(TV).Ty)
+				x.markReadOnly(st, c)
 				fr.env[ins] = PtrV{Cell: c}
 			} else {
 				x.fail("FieldAddr on %s", describe(b))
@@ -970,6 +1067,7 @@ func (x *Exec) step(st *State, fr *Frame, in ssa.Instruction) {
 			fv := x.fieldOf(st, el, ins.Field)
 			if tv, ok := fv.(TV); ok {
 				c := x.newCell(st, tv, tv.Ty)
+				x.markReadOnly(st, c)
 				fr.env[ins] = PtrV{Cell: c}
 			} else {
 				x.fail("FieldAddr on element: field is %s", describe(fv))
@@ -1009,6 +1107,20 @@ func (x *Exec) step(st *State, fr *Frame, in ssa.Instruction) {
 			fr.env[ins] = PtrV{Cell: p.Cell, Path: []PathElem{{IsIndex: true, Index: idx}}}
 		case ListV:
 			fr.env[ins] = ListElemPtr{L: p, Index: idx}
+		case GlobalPtr:
+			// element of a package-level array: a snapshot of the variable in a local cell (a variable that is written
+			// outside init holds an arbitrary value at every load; writes to the snapshot do not persist - D4 of C18
+			// reports such writes, here only the value that is read matters)
+			if gv, ok := x.loadGlobal(st, p.G).(TV); ok {
+				c := x.newCell(st, gv, gv.Ty)
+				if e.Sort(gv.Ty) == "Bytes" {
+					x.fail("IndexAddr on package-level byte array %s", p.G.Name())
+				} else {
+					fr.env[ins] = PtrV{Cell: c, Path: []PathElem{{IsIndex: true, Index: idx}}}
+				}
+			} else {
+				x.fail("IndexAddr on %s", describe(b))
+			}
 		default:
 			x.fail("IndexAddr on %s", describe(b))
 		}
